@@ -126,7 +126,7 @@ RevSeq(s) ==
       PrevD(i, k) == IF at(i - k) # at(i) THEN at(i - k) ELSE PrevD(i, k + 1)
       RECURSIVE NextD(_, _)
       NextD(i, k) == IF at(i + k) # at(i) THEN at(i + k) ELSE NextD(i, k + 1)
-      isRev(i) == at(i - 1) # at(i) /\ (at(i) - PrevD(i, 1)) * (NextD(i, 1) - at(i)) < 0
+      isRev(i) == at(i - 1) # at(i) /\ Sgn(at(i) - PrevD(i, 1)) * Sgn(NextD(i, 1) - at(i)) < 0
       pos == Positions(n, isRev)
   IN [k \in 1..Len(pos) |-> s[pos[k]]]
 Rotate(r, k) == SubSeq(r, k, Len(r)) \o SubSeq(r, 1, k - 1)
